@@ -1,129 +1,15 @@
 /-
-M3 lemmas, part 4: the main induction.  For every well-formed `e` the four statements
+M3 lemmas, part 4b: the main induction.  For every well-formed `e` the four statements
 `StA/StB/StG'/StE` hold for its printed forms (`Main e`), and argument lists parse back
 (`MainL`).
 -/
-import GopModel.Lemmas.ExprRound
+import GopModel.Lemmas.ExprMainDefs
 namespace GopModel.ExprSyntax
 open Gen
 
-structure Main (e : XExpr) : Prop where
-  a : StA (toks e highestPrec) (norm e highestPrec) (cost e + 8)
-  b : StB (toks e unaryPrec) (norm e unaryPrec) (cost e + 8)
-  g : ∀ q, q ≤ unaryPrec → StG' (toks e q) (norm e q) q (cost e + 8)
-  e : StE (toks e lowestPrec) (norm e lowestPrec) (cost e + 8)
-
-/-- Argument lists: `parseArgs` on the printed list followed by the optional `...` and `)`. -/
-def MainL (l : List XExpr) : Prop :=
-  ∀ (acc : List XExpr) (ell : Bool) (r : List Tok), (ell = true → l ≠ []) →
-    ∀ n, costL l + 2 ≤ n →
-      parseArgs n acc (toksL l ++ ((if ell then [.op .ELLIPSIS] else []) ++ .op .RPAREN :: r)) =
-        .ok ((acc.reverse ++ normL l, ell), r)
-
-theorem hconsts : lowestPrec = 0 ∧ unaryPrec = 6 ∧ highestPrec = 7 := ⟨rfl, rfl, rfl⟩
-
-/-- Operand-level nodes: everything follows from the native `StA`. -/
-theorem main_of_A (e : XExpr) (hwf : wf e = true) (hp : exprPrec e = highestPrec) (c : Nat)
-    (hc : c ≤ cost e) (hA : StA (toks e highestPrec) (norm e highestPrec) c) : Main e := by
-  obtain ⟨h0, h6, h7⟩ := hconsts
-  obtain ⟨t, tl, hT, hs, hps⟩ := toks_head e hwf highestPrec (Nat.le_refl _)
-  have hpt := hps (Or.inr hp)
-  have hx := norm_not_tuple e hwf highestPrec
-  have hB : StB (toks e highestPrec) (norm e highestPrec) (c + 3) := StB_of_StA hA hT hpt
-  have hG : StG (toks e highestPrec) (norm e highestPrec) (c + 4) := StG_of_StB hB hx
-  have hE : StE (toks e highestPrec) (norm e highestPrec) (c + 6) :=
-    StE_of_StG' (hG.weak 1) (Nat.le_refl _) hT hs hx
-  have eqq : ∀ q, q ≤ highestPrec → toks e q = toks e highestPrec ∧ norm e q = norm e highestPrec :=
-    fun q hq => toks_nowrap hwf (by omega) (by omega)
-  refine ⟨hA.mono (by omega), ?_, ?_, ?_⟩
-  · obtain ⟨e1, e2⟩ := eqq unaryPrec (by omega)
-    rw [e1, e2]; exact hB.mono (by omega)
-  · intro q hq
-    obtain ⟨e1, e2⟩ := eqq q (by omega)
-    rw [e1, e2]; exact (hG.weak q).mono (by omega)
-  · obtain ⟨e1, e2⟩ := eqq lowestPrec (by omega)
-    rw [e1, e2]; exact hE.mono (by omega)
-
-/-- Nodes below operand level (`exprPrec e = P < 7`): everything follows from `StG'` at all
-`q ≤ P` and, when `P = unaryPrec`, `StB`. -/
-theorem main_of_G (e : XExpr) (hwf : wf e = true) (P : Nat) (hp : exprPrec e = P) (hP1 : 1 ≤ P)
-    (hP6 : P ≤ unaryPrec) (c : Nat) (hc : c + 8 ≤ cost e + 8)
-    (hG : ∀ q, q ≤ P → StG' (toks e q) (norm e q) q c)
-    (hB : P = unaryPrec → StB (toks e unaryPrec) (norm e unaryPrec) (cost e + 8)) : Main e := by
-  obtain ⟨h0, h6, h7⟩ := hconsts
-  -- E from G at 1
-  obtain ⟨t, tl, hT, hs, _⟩ := toks_head e hwf 1 (by omega)
-  have hE1 : StE (toks e 1) (norm e 1) (c + 2) :=
-    StE_of_StG' (hG 1 hP1) (Nat.le_refl _) hT hs (norm_not_tuple e hwf 1)
-  obtain ⟨e01, e02⟩ := toks_nowrap (p := lowestPrec) (p' := 1) hwf (by omega) (by omega)
-  have hE : StE (toks e lowestPrec) (norm e lowestPrec) (c + 2) := by rw [e01, e02]; exact hE1
-  -- A: wrapped at 7
-  obtain ⟨t0, tl0, hT0, hs0, _⟩ := toks_head e hwf lowestPrec (by omega)
-  obtain ⟨w1, w2⟩ := toks_wrap (p := highestPrec) hwf (by omega) (Nat.le_refl _)
-  have hA : StA (toks e highestPrec) (norm e highestPrec) (c + 4) := by
-    rw [w1, w2]; exact StA_paren_of_StE hE hT0 hs0
-  -- B at 7 (wrapped), then G for wrapped q
-  have hB7 : StB (toks e highestPrec) (norm e highestPrec) (c + 7) :=
-    StB_of_StA hA (by rw [w1]) rfl
-  have hG7 : StG (toks e highestPrec) (norm e highestPrec) (c + 8) :=
-    StG_of_StB hB7 (norm_not_tuple e hwf highestPrec)
-  have wrapq : ∀ q, P < q → q ≤ highestPrec →
-      toks e q = toks e highestPrec ∧ norm e q = norm e highestPrec := by
-    intro q h1 h2
-    obtain ⟨a1, a2⟩ := toks_wrap (p := q) hwf (by omega) h2
-    rw [a1, a2, w1, w2]; exact ⟨rfl, rfl⟩
-  refine ⟨hA.mono (by omega), ?_, ?_, hE.mono (by omega)⟩
-  · by_cases h : P = unaryPrec
-    · exact hB h
-    · obtain ⟨a1, a2⟩ := wrapq unaryPrec (by omega) (by omega)
-      rw [a1, a2]; exact hB7.mono (by omega)
-  · intro q hq
-    by_cases h : q ≤ P
-    · exact (hG q h).mono (by omega)
-    · obtain ⟨a1, a2⟩ := wrapq q (by omega) (by omega)
-      rw [a1, a2]; exact (hG7.weak q).mono (by omega)
-
-theorem paren_indep {x : XExpr} (hpn : isParenNode x = true) (q q' : Nat) :
-    toks x q = toks x q' ∧ norm x q = norm x q' := by
-  cases x <;> simp [isParenNode] at hpn
-  simp [toks_paren, norm]
-
-/-- Unary-level nodes: everything follows from the native `StB`. -/
-theorem main_of_B (e : XExpr) (hwf : wf e = true) (hp : exprPrec e = unaryPrec) (c : Nat)
-    (hc : c + 9 ≤ cost e + 8) (hB : StB (toks e unaryPrec) (norm e unaryPrec) c) : Main e := by
-  obtain ⟨h0, h6, h7⟩ := hconsts
-  refine main_of_G e hwf unaryPrec hp (by omega) (Nat.le_refl _) (c + 1) (by omega) ?_ (fun _ => hB.mono (by omega))
-  intro q hq
-  obtain ⟨a1, a2⟩ := toks_nowrap (p := q) (p' := unaryPrec) hwf (by omega) (by omega)
-  rw [a1, a2]
-  exact (StG_of_StB hB (norm_not_tuple e hwf unaryPrec)).weak q
-
-theorem stopsTop_rbrack (r : List Tok) : stopsTop (.op .RBRACK :: r) = true := by
-  simp [stopsTop, stopsPrimary, headPrec, headIs, tokPrec, prec, precedence]
-theorem stopsTop_comma (r : List Tok) : stopsTop (.op .COMMA :: r) = true := by
-  simp [stopsTop, stopsPrimary, headPrec, headIs, tokPrec, prec, precedence]
-theorem stopsTop_ellipsis (r : List Tok) : stopsTop (.op .ELLIPSIS :: r) = true := by
-  simp [stopsTop, stopsPrimary, headPrec, headIs, tokPrec, prec, precedence]
-
-theorem stopsPrimary_binop {o : Op} (h : isBinOp o = true) (r : List Tok) :
-    stopsPrimary (.op o :: r) = true := by
-  cases o <;> simp [isBinOp, prec, precedence] at h <;> simp [stopsPrimary]
-
-theorem headPrec_binop {o : Op} (h : isBinOp o = true) (r : List Tok) :
-    headPrec (.op o :: r) = prec o := by
-  simp [headPrec, (tokPrec_binOp h).1]
-
-theorem costL_cons (e : XExpr) (l : List XExpr) : costL (e :: l) = cost e + 40 + costL l := by
-  simp [costL, cost, sizeL]; omega
-
 mutual
 theorem main : ∀ (e : XExpr), wf e = true → Main e
-  | .ident s, h => main_of_A _ h rfl 2 (by simp [cost, size]) (by
-      intro lhs tup r res M ho hk n hn
-      obtain ⟨n', rfl⟩ : ∃ n', n = n' + 2 := ⟨n - 2, by omega⟩
-      simp only [toks_ident, norm, List.cons_append, List.nil_append] at hk ⊢
-      rw [parsePrimary_step (parseOperand_ident n' lhs tup s r ho) rfl]
-      exact hk (n' + 1) (by omega))
+  | .ident s, _ => main_ident s
   | .lit k v, h => main_of_A _ h rfl 2 (by simp [cost, size]) (by
       intro lhs tup r res M ho hk n hn
       obtain ⟨n', rfl⟩ : ∃ n', n = n' + 2 := ⟨n - 2, by omega⟩
@@ -161,13 +47,13 @@ theorem main : ∀ (e : XExpr), wf e = true → Main e
     have hnw : ¬ prec op < q := by omega
     simp only [toks_binary, norm, wrapT, wrapP, hnw, decide_false, Bool.false_eq_true, if_false,
       List.append_assoc, List.cons_append] at hk ⊢
-    refine ihx.g (prec op) (by omega) lhs tup p1 _ res (M + cost y + 10) (by omega)
+    refine ihx.g (prec op) (by omega) (by omega) lhs tup p1 _ res (M + cost y + 10) (by omega)
       (stopsPrimary_binop hop _) (by rw [headPrec_binop hop]; exact Nat.le_refl _) ?_ n (by omega)
     intro m hm
     obtain ⟨m', rfl⟩ : ∃ m', m = m' + 1 := ⟨m - 1, by omega⟩
     have hy' : parseBinary m' false (prec op + 1) false (toks y (prec op + 1) ++ r) =
         .ok (norm y (prec op + 1), r) :=
-      ihy.g (prec op + 1) (by omega) false false (prec op + 1) r _ 1 (Nat.le_refl _) hr (by omega)
+      ihy.g (prec op + 1) (by omega) (by omega) false false (prec op + 1) r _ 1 (Nat.le_refl _) hr (by omega)
         (fun m2 hm2 => by
           obtain ⟨m3, rfl⟩ : ∃ m3, m2 = m3 + 1 := ⟨m2 - 1, by omega⟩
           exact binaryLoop_stop m3 _ _ r (opHead_of_stopsPrimary hr) (by omega))
@@ -218,7 +104,7 @@ theorem main : ∀ (e : XExpr), wf e = true → Main e
       · rw [(eqq _).1, (eqq _).2, hcost]; exact ih.e
     · have hcost : cost (.paren x) = cost x + 40 := by simp [cost, size, hpn]; omega
       refine main_of_A _ h rfl (cost x + 10) (by omega) ?_
-      obtain ⟨t, tl, hT, hs, _⟩ := toks_head x hx lowestPrec (by omega)
+      obtain ⟨t, tl, hT, hs, _, _⟩ := toks_head x hx lowestPrec (by omega)
       simp only [toks_paren, norm, hpn, wrapT, if_true, Bool.false_eq_true, if_false]
       exact StA_paren_of_StE ih.e hT hs
   | .selector x s, h => by
@@ -246,7 +132,7 @@ theorem main : ∀ (e : XExpr), wf e = true → Main e
     refine ihx.a lhs tup _ res (M + cost i + 10) rfl ?_ n (by omega)
     intro m hm
     obtain ⟨m', rfl⟩ : ∃ m', m = m' + 2 := ⟨m - 2, by omega⟩
-    obtain ⟨t, tl, hT, hs, _⟩ := toks_head i hi lowestPrec (by omega)
+    obtain ⟨t, tl, hT, hs, _, _⟩ := toks_head i hi lowestPrec (by omega)
     have hl : parseLambda m' false (toks i lowestPrec ++ .op .RBRACK :: r) =
         .ok (norm i lowestPrec, .op .RBRACK :: r) :=
       ihi.e _ (stopsTop_rbrack r) m' (by omega)
@@ -303,7 +189,7 @@ theorem main : ∀ (e : XExpr), wf e = true → Main e
     have hnw : ¬ unaryPrec < unaryPrec := Nat.lt_irrefl _
     simp only [toks_errWrap_some, norm, wrapT, wrapP, hnw, decide_false, Bool.false_eq_true, if_false,
       List.append_assoc, List.cons_append]
-    obtain ⟨t, tl, hT, _, hps⟩ := toks_head x hx highestPrec (Nat.le_refl _)
+    obtain ⟨t, tl, hT, _, _, hps⟩ := toks_head x hx highestPrec (Nat.le_refl _)
     have hpt := hps (by have := exprPrec_le hx; omega)
     have hprim : parsePrimary n' lhs tup
         (toks x highestPrec ++ (.op tok :: .op .COLON :: (toks d unaryPrec ++ r))) =
@@ -325,8 +211,109 @@ theorem main : ∀ (e : XExpr), wf e = true → Main e
   | .composite .., h => by simp [wf] at h
   | .kv .., h => by simp [wf] at h
   | .sliceLit .., h => by simp [wf] at h
-  | .lambda .., h => by simp [wf] at h
-  | .typeAssert .., h => by simp [wf] at h
+  | .typeAssert x ty, h => by
+    have hx : wf x = true := by
+      cases ty with
+      | none => simpa [wf] using h
+      | some t => cases t <;> simp [wf] at h; exact h
+    have ih := main x hx
+    have hcost : cost (.typeAssert x ty) = cost x + 40 := by simp [cost, size]; omega
+    refine main_of_A _ h rfl (cost x + 9) (by omega) ?_
+    intro lhs tup r res M ho hk n hn
+    cases ty with
+    | none =>
+      simp only [toks_typeAssert_none, norm, List.append_assoc, List.cons_append, List.nil_append] at hk ⊢
+      refine ih.a lhs tup _ res (M + 1) rfl ?_ n (by omega)
+      intro m hm
+      obtain ⟨m', rfl⟩ : ∃ m', m = m' + 1 := ⟨m - 1, by omega⟩
+      rw [primaryLoop_typeAssert_type]
+      exact hk m' (by omega)
+    | some t =>
+      cases t <;> simp [wf] at h
+      rename_i a
+      simp only [toks_typeAssert_some, toks_ident, norm, List.append_assoc, List.cons_append, List.nil_append] at hk ⊢
+      refine ih.a lhs tup _ res (M + 1) rfl ?_ n (by omega)
+      intro m hm
+      obtain ⟨m', rfl⟩ : ∃ m', m = m' + 1 := ⟨m - 1, by omega⟩
+      rw [primaryLoop_typeAssert_ident]
+      exact hk m' (by omega)
+  | .lambda lhs lp rhs rp, h => by
+    obtain ⟨h0, h6, h7⟩ := hconsts
+    have h' := h
+    simp only [wf, Bool.and_eq_true, Bool.or_eq_true, decide_eq_true_eq] at h'
+    obtain ⟨hl, hr⟩ := h'
+    -- the right-hand side
+    have htail : ∀ (x? : Option XExpr) (r : List Tok), stopsTop r = true → ∀ n',
+        (if rp then sizeL rhs else sizeB rhs) * 40 + 12 ≤ n' →
+        parseLamTail n' x? (rhsT rhs rp ++ r) = lamOf x? (if rp then normL rhs else normB rhs) rp r := by
+      intro x? r hr' n' hn'
+      obtain ⟨n2, rfl⟩ : ∃ n2, n' = n2 + 1 := ⟨n' - 1, by omega⟩
+      cases rp with
+      | true =>
+        simp only [if_true, Bool.and_eq_true, Bool.not_eq_true', List.isEmpty_eq_false_iff] at hr hn' ⊢
+        have hall := mainAll rhs hr.2
+        have := mainLR rhs hall hr.1 [] r n2 (by simp only [costL]; omega)
+        simp only [rhsT, if_true, List.cons_append, List.append_assoc, List.nil_append]
+        rw [parseLamTail_paren this]
+        simp
+      | false =>
+        simp only [Bool.false_eq_true, if_false] at hr hn' ⊢
+        cases rhs with
+        | nil => simp [wfB] at hr
+        | cons b rest =>
+          cases rest with
+          | cons b2 r2 => simp [wfB] at hr
+          | nil =>
+            simp only [wfB, Bool.and_eq_true, Bool.not_eq_true'] at hr
+            have hwfL : wfL [b] = true := by simp [wfL, hr.1]
+            have ihb := (mainAll [b] hwfL b (by simp)).2
+            obtain ⟨t, tl, hT, hsl, _, _⟩ := toks_head b hr.1 lowestPrec (by omega)
+            have hnp : t ≠ .op .LPAREN := by
+              intro hc
+              have := hr.2
+              rw [hT, hc] at this
+              simp [headIs] at this
+            have hb := ihb.e r hr' n2 (by simp only [sizeB, cost] at hn' ⊢; omega)
+            simp only [rhsT, Bool.false_eq_true, if_false, normB]
+            rw [hT, List.cons_append] at hb ⊢
+            rw [parseLamTail_body hsl hnp hb]
+    have hcost : cost (.lambda lhs lp rhs rp) = 40 * lhs.length + (if rp then sizeL rhs else sizeB rhs) * 40 + 40 := by
+      simp only [cost, size]; omega
+    have hb1 : 1 ≤ (if rp then sizeL rhs else sizeB rhs) := by
+      cases rp with
+      | true =>
+        simp only [if_true, Bool.and_eq_true, Bool.not_eq_true', List.isEmpty_eq_false_iff] at hr ⊢
+        cases rhs with
+        | nil => exact absurd rfl hr.1
+        | cons b l => simp only [sizeL]; omega
+      | false =>
+        simp only [Bool.false_eq_true, if_false] at hr ⊢
+        cases rhs with
+        | nil => simp [wfB] at hr
+        | cons b rest =>
+          cases rest with
+          | cons b2 r2 => simp [wfB] at hr
+          | nil => simp only [sizeB]; exact size_pos b
+    refine main_of_E _ h rfl (cost (.lambda lhs lp rhs rp)) (by omega) ?_
+    intro r hr' n hn
+    obtain ⟨n', rfl⟩ : ∃ n', n = n' + 1 := ⟨n - 1, by omega⟩
+    have hnw : ¬ lowestPrec < lowestPrec := Nat.lt_irrefl _
+    simp only [toks_lambda, norm, wrapT, wrapP, hnw, decide_false, Bool.false_eq_true, if_false,
+      List.append_assoc, List.cons_append]
+    by_cases hemp : lp = false ∧ lhs = []
+    · obtain ⟨rfl, rfl⟩ := hemp
+      simp only [lhsT, Bool.false_eq_true, if_false, List.nil_append]
+      rw [parseLambda_arrow, htail none r hr' n' (by omega)]
+      rfl
+    · obtain ⟨x, hx1, hx2⟩ := parse_lhs lhs lp hl hemp (rhsT rhs rp ++ r) n' (by omega)
+      have hh : headIs .DRARROW (lhsT lhs lp ++ .op .DRARROW :: (rhsT rhs rp ++ r)) = false := by
+        cases lp with
+        | true => simp [lhsT, headIs]
+        | false =>
+          cases lhs with
+          | nil => exact absurd ⟨rfl, rfl⟩ hemp
+          | cons s l => simp [lhsT, headIs]
+      rw [parseLambda_lhs hh hx1, htail (some x) r hr' n' (by omega), hx2]
   | .range .., h => by simp [wf] at h
   | .tuple .., h => by simp [wf] at h
   | .bad, h => by simp [wf] at h
@@ -345,7 +332,7 @@ theorem mainL : ∀ (l : List XExpr), wfL l = true → MainL l
     intro acc ell r _ n hn
     rw [costL_cons] at hn
     obtain ⟨n', rfl⟩ : ∃ n', n = n' + 1 := ⟨n - 1, by omega⟩
-    obtain ⟨t, tl, hT, hs, _⟩ := toks_head e he lowestPrec (by omega)
+    obtain ⟨t, tl, hT, hs, _, _⟩ := toks_head e he lowestPrec (by omega)
     cases ell with
     | false =>
       have hl := ih.e (.op .RPAREN :: r) (stopsTop_rparen r) n' (by omega)
@@ -371,7 +358,7 @@ theorem mainL : ∀ (l : List XExpr), wfL l = true → MainL l
     intro acc ell r _ n hn
     rw [costL_cons] at hn
     obtain ⟨n', rfl⟩ : ∃ n', n = n' + 1 := ⟨n - 1, by omega⟩
-    obtain ⟨t, tl, hT, hs, _⟩ := toks_head e he lowestPrec (by omega)
+    obtain ⟨t, tl, hT, hs, _, _⟩ := toks_head e he lowestPrec (by omega)
     have hl := ih.e (.op .COMMA :: (toksL (e2 :: rest) ++
       ((if ell then [.op .ELLIPSIS] else []) ++ .op .RPAREN :: r))) (stopsTop_comma _) n' (by omega)
     rw [toksL_cons2]
@@ -381,6 +368,14 @@ theorem mainL : ∀ (l : List XExpr), wfL l = true → MainL l
     have := ihl (norm e lowestPrec :: acc) ell r (fun _ => by simp) n' (by omega)
     rw [this]
     simp [normL]
+theorem mainAll : ∀ (l : List XExpr), wfL l = true → ∀ e ∈ l, wf e = true ∧ Main e
+  | [], _, e, he => by simp at he
+  | a :: r, h, e, he => by
+    have h' := h
+    simp only [wfL, Bool.and_eq_true] at h'
+    rcases List.mem_cons.mp he with heq | hr
+    · rw [heq]; exact ⟨h'.1, main a h'.1⟩
+    · exact mainAll r h'.2 e hr
 end
 
 end GopModel.ExprSyntax
